@@ -1703,12 +1703,18 @@ class InTablePhase(Phase):
         originalPhase = self.parser.phase
         self.parser.phase = self.parser.phases["inTableText"]
         self.parser.phase.originalPhase = originalPhase
+        # "Let the pending table character tokens be an empty list of tokens":
+        # the phase object outlives a parse that was aborted before flushing
+        self.parser.phase.characterTokens = []
         self.parser.phase.processSpaceCharacters(token)
 
     def processCharacters(self, token):
         originalPhase = self.parser.phase
         self.parser.phase = self.parser.phases["inTableText"]
         self.parser.phase.originalPhase = originalPhase
+        # "Let the pending table character tokens be an empty list of tokens":
+        # the phase object outlives a parse that was aborted before flushing
+        self.parser.phase.characterTokens = []
         self.parser.phase.processCharacters(token)
 
     def insertText(self, token):
